@@ -8,6 +8,12 @@
 #include <execinfo.h>
 #include "vh.h"
 
+#if defined(DEBUG) && DEBUG >= 5
+#define C06_TRACKING 1          /* library and harness compiled with memory tracking (used by the C15 check) */
+#else
+#define C06_TRACKING 0
+#endif
+
 extern int __sanitizer_install_malloc_and_free_hooks(void (*mh)(const volatile void *, size_t), void (*fh)(const volatile void *)) __attribute__((weak));
 extern void __sanitizer_symbolize_pc(void *pc, const char *fmt, char *out, size_t out_size) __attribute__((weak));
 
@@ -254,7 +260,8 @@ static void step(void)
                  spif_mbuff_splice_from_ptr(pool[i].p, 0, (spif_memidx_t) n, (spif_byteptr_t) NULL, 0); own(spif_mbuff_dup(pool[i].p), T_MBUFF, 0); vh_count("emptied_then_copied", 1); } break;
     case 44: if ((i = pick_kind(T_STR)) >= 0) { long n = (long) spif_str_get_len(pool[i].p); vh_op("str_splice_from_ptr(#%d,0,%ld,NULL) -- emptied, buffer kept; then dup", i, n);
                  spif_str_splice_from_ptr(pool[i].p, 0, (spif_stridx_t) n, (spif_charptr_t) NULL); own(spif_str_dup(pool[i].p), T_STR, 0); vh_count("emptied_then_copied", 1); } break;
-    case 45: { spif_obj_t k = new_label(); int f = (int) vh_below(2);
+    case 45: if (C06_TRACKING) break;      /* at runtime level >= 1 (the tracking build runs at 5) a refused ASSERT-guarded call is fatal by design (C16/C20) */
+             { spif_obj_t k = new_label(); int f = (int) vh_below(2);
                if (f == 0) { vh_op("objpair_new_from_both(key, NULL) -- must be refused without keeping anything"); spif_objpair_t p = spif_objpair_new_from_both(k, (spif_obj_t) NULL); if (p) own(p, T_PAIR, 0); }
                else if (f == 1) { vh_op("objpair_new_from_both(NULL, value) -- must be refused without keeping anything"); spif_objpair_t p = spif_objpair_new_from_both((spif_obj_t) NULL, k); if (p) own(p, T_PAIR, 0); }
                /* map_set(key, NULL) is not generated: a NULL value is outside every statement (Appendix A.3) */
@@ -276,7 +283,6 @@ static void step(void)
 
 #if defined(DEBUG) && DEBUG >= 5
 extern spifmem_memrec_t *spifmem_verif_malloc_rec(void);
-#define C06_TRACKING 1
 static void tracker_must_be_empty(void)
 {
     spifmem_memrec_t *r = spifmem_verif_malloc_rec();
@@ -292,7 +298,6 @@ static void tracker_must_be_empty(void)
     vh_count("tracker_empty_after_program", 1);
 }
 #else
-#define C06_TRACKING 0
 static void tracker_must_be_empty(void) { }
 #endif
 
